@@ -2,6 +2,7 @@
   C13 — the symbols header declares exactly the generated linker symbols.
 -/
 import Props.Lemmas
+import Props.ImageSyms
 namespace Slinky.C13
 open Slinky
 
@@ -100,5 +101,21 @@ theorem gp_and_rompos_not_declared (cx : Ctx) (seg : Segment) (sec : Str) :
     · split at hl <;> simp at hl
       subst hl; rfl
     · rfl
+
+
+/-! ### in the linked image (the linker semantics `Slinkyv.Ld`) -/
+
+open Ld in
+/-- **C13, image clause**: every name the header declares (a symbol recorded through
+`write_linker_symbol` in the part `A` of the script in front of the `/DISCARD/` block — which
+`C18.tail` shows to be the last block) is in the symbol table of the image, for every object
+table and whatever follows `A`: an assignment outside `/DISCARD/` always defines its symbol
+and nothing removes one. -/
+theorem image_declared_are_defined (objs : List InSec) (A B : List Line) (st : St) (hd : st.inDiscard = false)
+    (hA : ∀ l ∈ A, l ≠ .discardHdr) :
+    ∀ s ∈ linkerSymbols A, s ≠ c!"." → s ∈ names (exec objs st (A ++ B)) := by
+  intro s hs hne
+  obtain ⟨e, he⟩ := (declared_once_and_defined A).2 s |>.1 hs
+  exact assigned_is_defined objs A B st hd hA s e false false true hne he
 
 end Slinky.C13
